@@ -357,7 +357,7 @@ pub fn run_probe_property<H: HB>(prop: &'static str, tier: Tier) -> Outcome {
     let mut out = Outcome::new();
     let q = tier == Tier::Quick;
     let (k, m) = match (prop, q) {
-        ("C16", true) => (2, 2),
+        ("C16", true) => (2, 3),
         ("C16", false) => (3, 2),
         (_, true) => (3, 3),
         (_, false) => (4, 3),
